@@ -28,7 +28,7 @@ use qbase::{
         PacketNumber, PacketWriter, SpinBit,
         encrypt::{encrypt_packet, protect_header},
         header::{LongHeader, io::WriteHeader, long},
-        io::be_packet,
+        io::{be_packet, Package, PadTo20},
         keys::{ArcOneRttKeys, DirectionalKeys},
     },
 };
@@ -227,8 +227,8 @@ impl rustls::client::danger::ServerCertVerifier for AcceptAll {
 struct OneRttCtx {
     /// server-side secrets, positioned so that the next `next_packet_keys()` yields generation 1
     secrets: rustls::quic::Secrets,
-    /// toy value of the server's REMOTE packet key of generations 1..=4
-    next_remote: [u64; 4],
+    /// toy value of the server's REMOTE packet key of generations 1..=8
+    next_remote: [u64; 8],
 }
 
 fn keychain_dir() -> String {
@@ -334,7 +334,7 @@ fn toy_handshake() -> Result<OneRttCtx, String> {
 
     // learn the remote key values of generations 1..=4
     let mut probe = secrets.clone();
-    let mut next_remote = [0u64; 4];
+    let mut next_remote = [0u64; 8];
     for slot in next_remote.iter_mut() {
         let before = KEY_LOG.lock().unwrap_or_else(|e| e.into_inner()).len();
         let set = probe.next_packet_keys();
@@ -405,31 +405,69 @@ struct Sent {
     hdr: Vec<u8>,
     pkt: Vec<u8>,
     off: usize,
+    /// the body as handed to the writer (before `PadTo20`), possibly extended to fill the buffer
+    body: Vec<u8>,
+    /// `PadTo20` was run on the writer
+    pad: bool,
 }
 
-fn write_long<S>(header: &LongHeader<S>, pn: u64, enc: PacketNumber, keys: DirectionalKeys, body: &[u8]) -> Result<Sent, String>
+/// How the body is put into the writer.
+#[derive(Clone, Copy)]
+struct BodyPlan {
+    buf_len: usize,
+    /// extend the body to exactly fill the buffer (maximum-size packet)
+    fill: bool,
+    /// run the real `PadTo20` package after the body (bodies below the sampling minimum)
+    pad: bool,
+}
+
+/// The assembler wrapper the real `PadTo20` wants (`AsRef<PacketWriter>` + `BufMut`), as qconnection's assemblers are.
+struct W<'b>(PacketWriter<'b>);
+impl<'b> AsRef<PacketWriter<'b>> for W<'b> {
+    fn as_ref(&self) -> &PacketWriter<'b> { &self.0 }
+}
+unsafe impl BufMut for W<'_> {
+    fn remaining_mut(&self) -> usize { self.0.remaining_mut() }
+    unsafe fn advance_mut(&mut self, cnt: usize) { unsafe { self.0.advance_mut(cnt) } }
+    fn chunk_mut(&mut self) -> &mut bytes::buf::UninitSlice { self.0.chunk_mut() }
+}
+
+fn put_body(w: PacketWriter<'_>, body: &[u8], plan: BodyPlan, fillb: u8) -> (usize, Vec<u8>) {
+    let mut w = W(w);
+    let mut body = body.to_vec();
+    if plan.fill {
+        let rem = w.remaining_mut();
+        if rem > body.len() { body.resize(rem, fillb); }
+    }
+    w.put_slice(&body);
+    if plan.pad {
+        let _ = PadTo20.dump(&mut w);
+    }
+    let (size, _info) = w.0.encrypt_and_protect_packet();
+    (size, body)
+}
+
+fn write_long<S>(header: &LongHeader<S>, pn: u64, enc: PacketNumber, keys: DirectionalKeys, body: &[u8], plan: BodyPlan) -> Result<Sent, String>
 where
     S: EncodeHeader,
     LongHeader<S>: GetType + EncodeHeader,
     for<'a> &'a mut [u8]: WriteHeader<LongHeader<S>>,
 {
-    let mut buffer = vec![0u8; 1200];
+    let mut buffer = vec![0u8; plan.buf_len];
     let hdr_len = header.size();
-    let mut w = PacketWriter::new_long(header, &mut buffer, (pn, enc), keys).map_err(|s| format!("signals:{s:?}"))?;
+    let w = PacketWriter::new_long(header, &mut buffer, (pn, enc), keys).map_err(|s| format!("signals:{s:?}"))?;
     let hdr = w.buffer()[..hdr_len].to_vec();
-    w.put_slice(body);
-    let (size, _info) = w.encrypt_and_protect_packet();
-    Ok(Sent { hdr, pkt: buffer[..size].to_vec(), off: hdr_len + 2 })
+    let (size, body) = put_body(w, body, plan, 0xa5);
+    Ok(Sent { hdr, pkt: buffer[..size].to_vec(), off: hdr_len + 2, body, pad: plan.pad })
 }
 
-fn write_short(header: &OneRttHeader, pn: u64, enc: PacketNumber, keys: DirectionalKeys, kp: KeyPhaseBit, body: &[u8]) -> Result<Sent, String> {
-    let mut buffer = vec![0u8; 1200];
+fn write_short(header: &OneRttHeader, pn: u64, enc: PacketNumber, keys: DirectionalKeys, kp: KeyPhaseBit, body: &[u8], plan: BodyPlan) -> Result<Sent, String> {
+    let mut buffer = vec![0u8; plan.buf_len];
     let hdr_len = header.size();
-    let mut w = PacketWriter::new_short(header, &mut buffer, (pn, enc), keys, kp).map_err(|s| format!("signals:{s:?}"))?;
+    let w = PacketWriter::new_short(header, &mut buffer, (pn, enc), keys, kp).map_err(|s| format!("signals:{s:?}"))?;
     let hdr = w.buffer()[..hdr_len].to_vec();
-    w.put_slice(body);
-    let (size, _info) = w.encrypt_and_protect_packet();
-    Ok(Sent { hdr, pkt: buffer[..size].to_vec(), off: hdr_len })
+    let (size, body) = put_body(w, body, plan, 0xa5);
+    Ok(Sent { hdr, pkt: buffer[..size].to_vec(), off: hdr_len, body, pad: plan.pad })
 }
 
 #[derive(Clone, PartialEq, Eq, Debug)]
@@ -535,6 +573,50 @@ fn obs(out: &Result<Out, String>, cur: u8) -> String {
 // generators
 // ---------------------------------------------------------------------------------------------
 
+/// Token length classes around the varint width boundaries of the token-length field (1 -> 2 -> 4 bytes).
+const TOKEN_CLASSES: [usize; 7] = [0, 1, 63, 64, 65, 16383, 16384];
+
+fn token_class(n: usize) -> &'static str {
+    match n { 0 => "0", 1..=63 => "1-63", 64..=16383 => "64-16383", _ => "16384+" }
+}
+
+/// The first 14 cases of a run walk through the token classes (twice) with cid lengths 0..20; later cases are random.
+fn gen_token_len(rng: &mut Rng, case: u64) -> usize {
+    if case < 14 { return TOKEN_CLASSES[(case % 7) as usize]; }
+    match rng.below(16) {
+        0..=4 => 0,
+        5 => 1,
+        6 => 63,
+        7 => 64,
+        8 => 65,
+        9 => 66 + rng.below(500) as usize,
+        10 => if rng.chance(1, 4) { *rng.pick(&[16383usize, 16384]) } else { 64 + rng.below(200) as usize },
+        11 | 12 => rng.below(9) as usize,
+        _ => rng.below(64) as usize,
+    }
+}
+
+/// (dcid, scid, token) of a parsed data header
+fn header_fields(h: &DataHeader) -> (Vec<u8>, Vec<u8>, Vec<u8>) {
+    use qbase::packet::header::{GetDcid, GetScid};
+    match h {
+        DataHeader::Long(long::DataHeader::Initial(h)) => (h.dcid().to_vec(), h.scid().to_vec(), h.token().clone()),
+        DataHeader::Long(long::DataHeader::ZeroRtt(h)) => (h.dcid().to_vec(), h.scid().to_vec(), vec![]),
+        DataHeader::Long(long::DataHeader::Handshake(h)) => (h.dcid().to_vec(), h.scid().to_vec(), vec![]),
+        DataHeader::Short(h) => (h.dcid().to_vec(), vec![], vec![]),
+    }
+}
+
+/// An explicitly chosen wire width of the packet number (`PacketNumber::encode` never picks one byte).
+fn explicit_enc(pn: u64, w: u64) -> (PacketNumber, String) {
+    match w {
+        1 => (PacketNumber::U8(pn as u8), format!("u8:{}", pn as u8)),
+        2 => (PacketNumber::U16(pn as u16), format!("u16:{}", pn as u16)),
+        3 => (PacketNumber::U24(pn as u32 & 0xff_ffff), format!("u24:{}", pn as u32 & 0xff_ffff)),
+        _ => (PacketNumber::U32(pn as u32), format!("u32:{}", pn as u32)),
+    }
+}
+
 fn gen_cid_len(rng: &mut Rng) -> usize {
     match rng.below(8) {
         0 | 1 => 0,
@@ -606,11 +688,22 @@ struct Mutation {
     dh: u64,
 }
 
-fn mutations(rng: &mut Rng, pkt: &[u8], exp: u64, pn: u64) -> Vec<Mutation> {
+fn mutations(rng: &mut Rng, pkt: &[u8], off: usize, exp: u64, pn: u64) -> Vec<Mutation> {
     let mut ms = Vec::new();
     let m = |kind, buf: Vec<u8>| Mutation { kind, buf, exp, dk: 0, dh: 0 };
-    for bit in 0..pkt.len() * 8 {
-        ms.push(m("flip", flip(pkt, bit)));
+    if pkt.len() <= 400 {
+        for bit in 0..pkt.len() * 8 {
+            ms.push(m("flip", flip(pkt, bit)));
+        }
+    } else {
+        // large packet (long token / maximum-size payload): every bit of the first 48 and the last 40 bytes,
+        // every bit of the 40 bytes around the payload offset, and 256 random bits
+        let n = pkt.len();
+        let mut bits: Vec<usize> = (0..48 * 8).chain((n - 40) * 8..n * 8).collect();
+        let lo = off.saturating_sub(8).min(n - 40);
+        bits.extend(lo * 8..(lo + 40) * 8);
+        for _ in 0..256 { bits.push(rng.below(n as u64 * 8) as usize); }
+        for bit in bits { ms.push(m("flip", flip(pkt, bit))); }
     }
     ms.push(m("trunc1", pkt[..pkt.len() - 1].to_vec()));
     let mut app = pkt.to_vec();
@@ -704,7 +797,7 @@ fn run_toy(o: &Opts) {
     sink.set_hang_secs(30);
     let ctx = one_rtt_ctx();
     let next = ctx.next_remote;
-    let next_s = format!("{},{},{},{}", next[0], next[1], next[2], next[3]);
+    let next_s = next.iter().map(|v| v.to_string()).collect::<Vec<_>>().join(",");
     let mut tally = Tally { flips: 0, flip_drop: 0, flip_connerr: 0, flip_acc: 0, flip_nodata: 0, flip_panic: 0, other_connerr: 0 };
     let mut order_seen = String::new();
     let range: Vec<u64> = match o.only_case { Some(c) => vec![c], None => (0..o.cases).collect() };
@@ -719,15 +812,16 @@ fn run_toy(o: &Opts) {
 
         // ---- choose the packet
         let ty = *rng.pick(&[Ty::Initial, Ty::ZeroRtt, Ty::Handshake, Ty::OneRtt, Ty::OneRtt]);
-        let dcid_len = gen_cid_len(&mut rng);
-        let scid_len = gen_cid_len(&mut rng);
+        let ty = if case < 14 { Ty::Initial } else { ty };
+        let dcid_len = if case < 21 { case as usize } else { gen_cid_len(&mut rng) };
+        let scid_len = if case < 21 { 20 - case as usize } else { gen_cid_len(&mut rng) };
         let dcid = ConnectionId::from_slice(&rng.bytes(dcid_len));
         let scid = ConnectionId::from_slice(&rng.bytes(scid_len));
         let (pn, la) = gen_pn(&mut rng);
         let k = rng.next_u64();
         let hk = rng.next_u64();
         let spin = rng.chance(1, 2);
-        let token_len = match rng.below(4) { 0 | 1 => 0, 2 => rng.below(9) as usize, _ => rng.below(41) as usize };
+        let token_len = gen_token_len(&mut rng, case);
         let token = rng.bytes(token_len);
         // 1-RTT: key generation used by the sender and the key-phase bit it writes
         let (generation, kp) = if ty == Ty::OneRtt {
@@ -748,9 +842,21 @@ fn run_toy(o: &Opts) {
                 continue;
             }
         };
+        // one case in four: an explicitly chosen pn width (1..4 bytes), expected pn = pn
+        let explicit = rng.chance(1, 4);
+        let (enc, enc_s) = if explicit { let (e, s) = explicit_enc(pn, 1 + rng.below(4)); (e, format!(" enc={}", s)) } else { (enc, String::new()) };
         let pn_len = enc.size();
-        let body = gen_body(&mut rng, pn_len, 120);
-        let exp = if rng.chance(1, 8) { pn + 1 } else if pn == 0 { 0 } else { la + 1 + rng.below(pn - la) };
+        // bodies below the sampling minimum go through the real `PadTo20`; one case in ten fills the buffer
+        let need_pad_max = 4usize.saturating_sub(pn_len); // body lengths 1..need_pad_max need padding
+        let pad = need_pad_max >= 2 && rng.chance(1, 3) || (pn_len >= 3 && rng.chance(1, 8));
+        let body = if pad && need_pad_max >= 2 { let n = 1 + rng.below(need_pad_max as u64 - 1) as usize; rng.bytes(n) } else { gen_body(&mut rng, pn_len, 120) };
+        let fill = !pad && rng.chance(1, 10);
+        let plan = BodyPlan { buf_len: if token_len > 800 { token_len + 400 } else { 1200 }, fill, pad };
+        let exp = if explicit { pn } else if rng.chance(1, 8) { pn + 1 } else if pn == 0 { 0 } else { la + 1 + rng.below(pn - la) };
+        if ty == Ty::Initial { sink.branch(&format!("token:{}", token_class(token_len))); }
+        if pad { sink.branch("tx:padto20"); }
+        if fill { sink.branch("tx:fill"); }
+        if explicit { sink.branch("tx:explicit-pn-width"); }
         sink.branch(&format!("ty:{}", ty.s()));
         sink.branch(&format!("pn_len:{}", pn_len));
         sink.branch(&format!("dcid:{}", cid_class(dcid_len)));
@@ -762,14 +868,15 @@ fn run_toy(o: &Opts) {
         let keys = toy_dir(k_tx, hk);
         sink.pending("tx");
         let sent = catch(|| match ty {
-            Ty::Initial => write_long(&LongHeaderBuilder::with_cid(dcid, scid).initial(token.clone()), pn, enc, keys, &body),
-            Ty::ZeroRtt => write_long(&LongHeaderBuilder::with_cid(dcid, scid).zero_rtt(), pn, enc, keys, &body),
-            Ty::Handshake => write_long(&LongHeaderBuilder::with_cid(dcid, scid).handshake(), pn, enc, keys, &body),
-            Ty::OneRtt => write_short(&OneRttHeader::new(SpinBit::from(spin), dcid), pn, enc, keys, KeyPhaseBit::from(kp == 1), &body),
+            Ty::Initial => write_long(&LongHeaderBuilder::with_cid(dcid, scid).initial(token.clone()), pn, enc, keys, &body, plan),
+            Ty::ZeroRtt => write_long(&LongHeaderBuilder::with_cid(dcid, scid).zero_rtt(), pn, enc, keys, &body, plan),
+            Ty::Handshake => write_long(&LongHeaderBuilder::with_cid(dcid, scid).handshake(), pn, enc, keys, &body, plan),
+            Ty::OneRtt => write_short(&OneRttHeader::new(SpinBit::from(spin), dcid), pn, enc, keys, KeyPhaseBit::from(kp == 1), &body, plan),
         });
-        let tx_op = |hdr: &[u8]| {
-            format!("tx ty={} k={} hk={} hdr={} pn={} la={} kp={} body={} gen={}", ty.s(), k_tx, hk, hex(hdr), pn, la, kp, hex(&body), generation)
+        let tx_op2 = |hdr: &[u8], body: &[u8]| {
+            format!("tx ty={} k={} hk={} hdr={} pn={} la={} kp={} body={} gen={} pad={}{}", ty.s(), k_tx, hk, hex(hdr), pn, la, kp, hex(body), generation, pad as u8, enc_s)
         };
+        let tx_op = |hdr: &[u8]| tx_op2(hdr, &body);
         let sent = match sent {
             Ok(Ok(s)) => s,
             Ok(Err(e)) => {
@@ -783,13 +890,20 @@ fn run_toy(o: &Opts) {
                 continue;
             }
         };
-        sink.line(&tx_op(&sent.hdr), &format!("pkt={} off={}", hex(&sent.pkt), sent.off));
+        sink.line(&tx_op2(&sent.hdr, &sent.body), &format!("pkt={} off={}", hex(&sent.pkt), sent.off));
         sink.branch("tx:ok");
+        // what the receiver must deliver: the body incl. the zero padding `PadTo20` appended
+        let body: Vec<u8> = {
+            let mut b = sent.body.clone();
+            if sent.pad && !b.is_empty() && pn_len + b.len() + TAG_LEN < 20 { b.resize(20 - pn_len - TAG_LEN, 0); }
+            b
+        };
+        let sent_fields = (dcid.to_vec(), if ty == Ty::OneRtt { vec![] } else { scid.to_vec() }, if ty == Ty::Initial { token.clone() } else { vec![] });
 
         // ---- receive the genuine packet and every mutation
         let honest = ty != Ty::OneRtt || (generation == 0 && kp == 0) || (generation == 1 && kp == 1);
         let mut stream = vec![Mutation { kind: "genuine", buf: sent.pkt.clone(), exp, dk: 0, dh: 0 }];
-        stream.extend(mutations(&mut rng, &sent.pkt, exp, pn));
+        stream.extend(mutations(&mut rng, &sent.pkt, sent.off, exp, pn));
         let mut genuine_ok = false;
         for mu in &stream {
             let is_flip = mu.kind == "flip";
@@ -848,7 +962,9 @@ fn run_toy(o: &Opts) {
                 Err(m) => sink.monitor_fail("panic:rx", &format!("decrypt_{}_packet panicked on a {} packet: {}", if parsed.ty == Ty::OneRtt { "short" } else { "long" }, mu.kind, m)),
                 Ok(Out::Acc { pn: pn2, body: body2, kp: kp2 }) => {
                     if mu.kind == "genuine" {
-                        if *pn2 == pn && *body2 == body && *kp2 == kp {
+                        if header_fields(&parsed.header) != sent_fields || parsed.off != sent.off {
+                            sink.monitor_fail(&format!("roundtrip:{}:header", ty.s()), &format!("genuine packet: header fields / payload offset not recovered (token {} bytes, dcid {}, scid {}; off {} vs {})", token_len, dcid_len, scid_len, parsed.off, sent.off));
+                        } else if *pn2 == pn && *body2 == body && *kp2 == kp {
                             genuine_ok = true;
                         } else {
                             sink.monitor_fail(&format!("roundtrip:{}", ty.s()), &format!("genuine packet accepted as pn={} kp={} body={} but pn={} kp={} body={} was sent", pn2, kp2, hex(body2), pn, kp, hex(&body)));
@@ -913,26 +1029,31 @@ fn run_ring(o: &Opts) {
     for case in range {
         let mut rng = Rng::new(o.seed, case);
         sink.case(&case.to_string());
-        let dcid_len = match rng.below(4) { 0 => 8, 1 => 20, _ => 8 + rng.below(13) as usize };
-        let scid_len = gen_cid_len(&mut rng);
+        // (clients pick initial dcids of >= 8 bytes, but the derivation and the layout work for any length)
+        let dcid_len = if case < 21 { case as usize } else { match rng.below(4) { 0 => 8, 1 => 20, _ => rng.below(21) as usize } };
+        let scid_len = if case < 21 { 20 - case as usize } else { gen_cid_len(&mut rng) };
         let dcid = ConnectionId::from_slice(&rng.bytes(dcid_len));
         let scid = ConnectionId::from_slice(&rng.bytes(scid_len));
         let (pn, la) = gen_pn(&mut rng);
-        let token_len = match rng.below(3) { 0 => 0, 1 => rng.below(5) as usize, _ => rng.below(17) as usize };
+        let token_len = gen_token_len(&mut rng, case);
         let token = rng.bytes(token_len);
+        sink.branch(&format!("token:{}", token_class(token_len)));
         let Ok(enc) = catch(|| PacketNumber::encode(pn, la)) else {
             sink.monitor_fail("ring:panic:encode", &format!("PacketNumber::encode({}, {}) panicked", pn, la));
             continue;
         };
+        let explicit = rng.chance(1, 4);
+        let enc = if explicit { explicit_enc(pn, 1 + rng.below(4)).0 } else { enc };
         let body = gen_body(&mut rng, enc.size(), 60);
-        let exp = if pn == 0 { 0 } else { la + 1 + rng.below(pn - la) };
+        let exp = if explicit || pn == 0 { pn } else { la + 1 + rng.below(pn - la) };
+        let plan = BodyPlan { buf_len: if token_len > 800 { token_len + 400 } else { 1200 }, fill: rng.chance(1, 12), pad: false };
         sink.branch(&format!("pn_len:{}", enc.size()));
         sink.branch(&format!("dcid:{}", cid_class(dcid_len)));
         let op = format!("ring pn={}", pn);
         sink.pending(&op);
         let tx_keys: DirectionalKeys = ring_initial_keys(&dcid, rustls::Side::Client).local.into();
         let rx_keys = ring_initial_keys(&dcid, rustls::Side::Server).remote;
-        let sent = match catch(|| write_long(&LongHeaderBuilder::with_cid(dcid, scid).initial(token.clone()), pn, enc, tx_keys, &body)) {
+        let sent = match catch(|| write_long(&LongHeaderBuilder::with_cid(dcid, scid).initial(token.clone()), pn, enc, tx_keys, &body, plan)) {
             Ok(Ok(s)) => s,
             Ok(Err(e)) => {
                 sink.line(&op, &format!("ERR {}", e));
@@ -946,7 +1067,9 @@ fn run_ring(o: &Opts) {
         };
         let op = format!("ring pn={} len={}", pn, sent.pkt.len());
         let mut stream = vec![Mutation { kind: "genuine", buf: sent.pkt.clone(), exp, dk: 0, dh: 0 }];
-        stream.extend(mutations(&mut rng, &sent.pkt, exp, pn).into_iter().filter(|m| m.dk == 0 && m.dh == 0));
+        let body = sent.body.clone();
+        let sent_fields = (dcid.to_vec(), scid.to_vec(), token.clone());
+        stream.extend(mutations(&mut rng, &sent.pkt, sent.off, exp, pn).into_iter().filter(|m| m.dk == 0 && m.dh == 0));
         let (mut n_flips, mut n_drop, mut n_connerr, mut n_acc) = (0u64, 0u64, 0u64, 0u64);
         let mut genuine_ok = false;
         for mu in &stream {
@@ -999,7 +1122,9 @@ fn run_ring(o: &Opts) {
                 Err(m) => sink.monitor_fail("ring:panic:rx", &format!("decrypt_long_packet panicked on a {} packet {}: {}", mu.kind, hex(&mu.buf), m)),
                 Ok(Out::Acc { pn: pn2, body: body2, .. }) => {
                     if mu.kind == "genuine" {
-                        if *pn2 == pn && *body2 == body {
+                        if header_fields(&parsed.header) != sent_fields || parsed.off != sent.off {
+                            sink.monitor_fail("ring:roundtrip:initial:header", &format!("genuine packet: header fields / payload offset not recovered (token {} bytes, dcid {}, scid {})", token_len, dcid_len, scid_len));
+                        } else if *pn2 == pn && *body2 == body {
                             genuine_ok = true;
                         } else {
                             sink.monitor_fail("ring:roundtrip:initial", &format!("genuine packet accepted as pn={} body={} but pn={} body={} was sent", pn2, hex(body2), pn, hex(&body)));
@@ -1039,4 +1164,182 @@ fn run_ring(o: &Opts) {
     sink.finish(&o.stats, "genuine packet accepted; all single-bit flips received");
 }
 
-pub const RUNS: &[(&str, fn(&Opts))] = &[("C06toy", run_toy), ("C06ring", run_ring)];
+// ---------------------------------------------------------------------------------------------
+// C06keys: the receiver's key-phase state machine (the REAL `OneRttPacketKeys`) across several key updates with
+// reordered, duplicated, late and forged packets
+// ---------------------------------------------------------------------------------------------
+
+struct Flight {
+    pn: u64,
+    generation: usize,
+    kp: u8,
+    honest: bool,
+    pkt: Vec<u8>,
+    body: Vec<u8>,
+}
+
+fn run_keys(o: &Opts) {
+    let mut sink = Sink::new_with_stats(&o.out, &o.stats);
+    sink.set_hang_secs(30);
+    let ctx = one_rtt_ctx();
+    let next = ctx.next_remote;
+    let next_s = next.iter().map(|v| v.to_string()).collect::<Vec<_>>().join(",");
+    let range: Vec<u64> = match o.only_case { Some(c) => vec![c], None => (0..o.cases).collect() };
+    for case in range {
+        let mut rng = Rng::new(o.seed, case);
+        sink.case(&case.to_string());
+        sink.pending("cfg");
+        let order = probe_order();
+        sink.line("cfg", &order);
+        let k0 = rng.next_u64();
+        let hk = rng.next_u64();
+        let dcid_len = gen_cid_len(&mut rng);
+        let dcid = ConnectionId::from_slice(&rng.bytes(dcid_len));
+        let arc = fresh_one_rtt(k0, hk);
+        let (hpk, pks) = arc.remote_keys().expect("keys were just set");
+        sink.line(&format!("kinit k={} hk={} next={}", k0, hk, next_s), "ok");
+        let key_of = |g: usize| if g == 0 { k0 } else { next[g - 1] };
+        // the monitor's own bookkeeping of the receiver (never the model): number of updates so far and whether
+        // the previous generation's key is still retained
+        let (mut r_gen, mut r_prev) = (0usize, false);
+        let mut s_gen = 0usize; // sender's generation
+        let mut pn = rng.below(1000);
+        let mut largest: Option<u64> = None;
+        let mut pool: Vec<Flight> = Vec::new();
+        let steps = 12 + rng.below(30);
+        let mut accepted_any = false;
+        for _ in 0..steps {
+            match rng.below(20) {
+                // ---- the sender protects a packet under its current generation (sometimes a forged phase / key)
+                0..=6 => {
+                    pn += 1 + rng.below(3);
+                    let forged = rng.chance(1, 8);
+                    // one packet in 16 is sealed two generations ahead (same phase bit as now): genuine, but outside
+                    // the window until the receiver has followed two updates
+                    let ahead = !forged && s_gen + 2 <= 7 && rng.chance(1, 16);
+                    let (generation, kp, key) = if forged {
+                        match rng.below(2) {
+                            0 => (s_gen, 1 - (s_gen % 2) as u8, key_of(s_gen)),       // right key, wrong phase bit
+                            _ => (s_gen, (s_gen % 2) as u8, rng.next_u64()),           // unknown key, right phase bit
+                        }
+                    } else if ahead {
+                        (s_gen + 2, (s_gen % 2) as u8, key_of(s_gen + 2))
+                    } else {
+                        (s_gen, (s_gen % 2) as u8, key_of(s_gen))
+                    };
+                    let body = gen_body(&mut rng, 2, 24);
+                    let enc = PacketNumber::encode(pn, pn.saturating_sub(1 + rng.below(50)).min(pn));
+                    let plan = BodyPlan { buf_len: 1200, fill: false, pad: false };
+                    let hdr = OneRttHeader::new(SpinBit::from(rng.chance(1, 2)), dcid);
+                    match catch(|| write_short(&hdr, pn, enc, toy_dir(key, hk), KeyPhaseBit::from(kp == 1), &body, plan)) {
+                        Ok(Ok(sent)) => pool.push(Flight { pn, generation, kp, honest: !forged, pkt: sent.pkt, body }),
+                        _ => sink.monitor_fail("keys:panic:tx", "PacketWriter failed on a 1-RTT packet"),
+                    }
+                    sink.branch(if forged { "k:send-forged" } else { "k:send" });
+                }
+                // ---- the sender initiates a key update
+                7 | 8 => {
+                    if s_gen < 7 { s_gen += 1; sink.branch("k:sender-update"); }
+                }
+                // ---- the receiver discards the previous generation's key
+                9 | 10 => {
+                    sink.pending("kphaseout");
+                    pks.lock_guard().phase_out();
+                    r_prev = false;
+                    let cur = bool::from(pks.lock_guard().get_local().0) as u8;
+                    sink.line("kphaseout", &format!("cur={}", cur));
+                    sink.branch("k:phaseout");
+                }
+                // ---- the receiver updates proactively (rare)
+                11 => {
+                    if r_gen < 7 && r_gen <= s_gen {
+                        sink.pending("kupdate");
+                        pks.lock_guard().update();
+                        r_gen += 1;
+                        r_prev = true;
+                        let cur = bool::from(pks.lock_guard().get_local().0) as u8;
+                        sink.line("kupdate", &format!("cur={}", cur));
+                        sink.branch("k:local-update");
+                        // the peer follows at once (it sees the new phase): its next packets use the new generation
+                        if s_gen < r_gen { s_gen = r_gen; }
+                    }
+                }
+                // ---- the network delivers some packet in flight: any order, maybe again later
+                _ => {
+                    if pool.is_empty() { continue; }
+                    let i = if rng.chance(1, 3) { 0 } else { rng.below(pool.len() as u64) as usize };
+                    let keep = rng.chance(1, 5);
+                    let f = if keep { let f = &pool[i]; Flight { pn: f.pn, generation: f.generation, kp: f.kp, honest: f.honest, pkt: f.pkt.clone(), body: f.body.clone() } } else { pool.remove(i) };
+                    let Ok(Some(parsed)) = parse(&f.pkt, dcid_len) else {
+                        sink.monitor_fail("keys:parse", "a 1-RTT packet produced by PacketWriter was not parsed as a data packet");
+                        continue;
+                    };
+                    let exp = largest.map_or(f.pn.saturating_sub(rng.below(3)), |l| l + 1);
+                    // keep the expected pn within decode range of this packet
+                    let exp = if exp > f.pn + 20000 || f.pn > exp + 20000 { f.pn } else { exp };
+                    let op = format!("krx off={} exp={} buf={} sgen={} honest={}", parsed.off, exp, hex(&parsed.bytes), f.generation, f.honest as u8);
+                    sink.pending(&op);
+                    let DataHeader::Short(h) = parsed.header.clone() else { continue };
+                    let bytes = BytesMut::from(&parsed.bytes[..]);
+                    let off = parsed.off;
+                    let r = catch(|| {
+                        let r = CipherPacket::new(h, bytes, off).decrypt_short_packet(hpk.as_ref(), &pks, |e| Ok(e.decode(exp)));
+                        let cur = bool::from(pks.lock_guard().get_local().0) as u8;
+                        let out = match r {
+                            None => Out::Drop,
+                            Some(Err(_)) => Out::ConnErr,
+                            Some(Ok(pl)) => {
+                                let unmasked = parsed.bytes[0] ^ (toy_mask(hk, &parsed.bytes[off + 4..off + 4 + SAMPLE_LEN])[0] & 0x1f);
+                                let first = plain_first_byte(&pl, unmasked);
+                                Out::Acc { pn: pl.pn(), kp: (first & 0x04 != 0) as u8, body: pl.body().to_vec() }
+                            }
+                        };
+                        (out, cur)
+                    });
+                    let (out, cur) = match r { Ok((o, c)) => (Ok(o), c), Err(m) => (Err(m), 0) };
+                    sink.line(&op, &obs(&out, cur));
+                    // ---- monitor: the property clause, from the monitor's own bookkeeping
+                    let cur_phase = (r_gen % 2) as u8;
+                    let expect_accept = f.honest && (f.generation == r_gen || (f.generation + 1 == r_gen && r_prev) || (f.generation == r_gen + 1 && !r_prev));
+                    // bookkeeping of the receiver's own rule: a phase bit != current with an empty slot is a key update
+                    if f.kp != cur_phase && !r_prev {
+                        r_gen += 1;
+                        r_prev = true;
+                    }
+                    let what = format!("gen {} kp {} pn {} (receiver at generation {}, previous key {})", f.generation, f.kp, f.pn, r_gen, if r_prev { "retained" } else { "discarded" });
+                    match &out {
+                        Err(m) => sink.monitor_fail("keys:panic:rx", &format!("decrypt_short_packet panicked: {}", m)),
+                        Ok(Out::Acc { pn: pn2, kp: kp2, body: b2 }) => {
+                            accepted_any = true;
+                            largest = Some(largest.map_or(*pn2, |l| l.max(*pn2)));
+                            if !f.honest {
+                                sink.monitor_fail("keys:accepted-forged", &format!("a packet with a wrong phase bit / unknown key was accepted: {}", what));
+                            } else if !expect_accept {
+                                sink.monitor_fail("keys:accepted-outside-window", &format!("accepted a packet of a generation whose key the receiver should not hold: {}", what));
+                            } else if *pn2 != f.pn || *kp2 != f.kp || *b2 != f.body {
+                                sink.monitor_fail("keys:roundtrip", &format!("recovered pn={} kp={} body={} differs from what was sent: {}", pn2, kp2, hex(b2), what));
+                            }
+                            sink.branch(&format!("k:rx:acc:{}", if f.generation == r_gen { "current" } else { "previous" }));
+                        }
+                        Ok(Out::Drop) => {
+                            if expect_accept {
+                                sink.monitor_fail("keys:dropped-in-window", &format!("a genuine packet under a phase whose key the receiver has/retains was discarded: {}", what));
+                            }
+                            sink.branch(if f.honest { "k:rx:drop:outside-window" } else { "k:rx:drop:forged" });
+                        }
+                        Ok(Out::ConnErr) => sink.monitor_fail("keys:connerr", &format!("a 1-RTT packet produced a connection error: {}", what)),
+                    }
+                    if cur != (r_gen % 2) as u8 {
+                        sink.monitor_fail("keys:phase-drift", &format!("the receiver's current phase is {} after {} key updates: {}", cur, r_gen, what));
+                        // resynchronise the bookkeeping so that one defect is reported once per case
+                        r_gen += 1;
+                    }
+                }
+            }
+        }
+        if accepted_any { sink.nontrivial(); }
+    }
+    sink.finish(&o.stats, "at least one packet accepted on the persistent key state");
+}
+
+pub const RUNS: &[(&str, fn(&Opts))] = &[("C06toy", run_toy), ("C06keys", run_keys), ("C06ring", run_ring)];
